@@ -763,7 +763,16 @@ class _NP(types.ModuleType):
     @staticmethod
     def take(a, indices, axis=None, **k):
         a = as_sym(a)
+        if isinstance(indices, OpaqueIndex) and indices.what == "argmax":
+            # position of the first maximum of a Boolean array = first True entry (0 if none): decided by forking
+            flat = list(as_sym(indices.arr).a.reshape(-1))
+            if all(isinstance(e, (bool, _np.bool_)) or (isinstance(e, SV) and e.kind == "B") for e in flat):
+                indices = next((i for i, e in enumerate(flat) if bool(e)), 0)
+            else:
+                raise Unsupported("take() at the argmax of symbolic non-Boolean data")
         idx = _np.asarray(indices)
+        if idx.dtype == object:  # symbolic or SV-wrapped indices: concretise (forks on a symbolic index)
+            idx = _np.array([e.__index__() if isinstance(e, SV) else int(e) for e in idx.reshape(-1)], dtype=int).reshape(idx.shape)
         if axis is None:
             return SymArray(a.a.reshape(-1)[idx], a.kind) if idx.ndim else a.a.reshape(-1)[int(idx)]
         r = _np.take(a.a, idx, axis=axis)
